@@ -272,7 +272,36 @@ def r4_class_body_merge(ctx):
     )
 
 
+def r5_to_function_object(ctx):
+    repo = ctx.repo
+    oc = A.function_class(repo)
+    fs = [f for f in oc.module.funcs.values() if f.parent is None and f.cls is None and f.name == "to_ovld"]
+    ctx.require(len(fs) == 1, "the conversion helper to_ovld was not found")
+    f = fs[0]
+    ctx.touch(f)
+    rets = [r for r in ast.walk(f.node) if isinstance(r, ast.Return) and r.value is not None]
+    ctx.require(rets, f"{f.key}: no return")
+    for r in rets:
+        v = r.value
+        ok = True
+        if isinstance(v, ast.Call):
+            # a call of the decorator returns the entry-point function, not the function object
+            ok = call_name(v) == oc.name
+        elif isinstance(v, ast.IfExp):
+            ok = isinstance(v.test, ast.Call) and call_name(v.test) == "isinstance" and dotted(v.test.args[1]) == oc.name
+        elif isinstance(v, ast.Attribute):
+            ok = v.attr == "__ovld__"
+        ctx.ob(
+            f"{f.key}:return:{short(v, 30)}",
+            f.loc(r),
+            f"`{short(r, 50)}` hands back a function object ({oc.name}) or None, never the generated entry point",
+            ok,
+            f"`{short(r, 50)}` returns the entry-point function where callers expect the {oc.name}: a class body that first defines a plain method and then an overloaded one of the same name fails with AttributeError",
+        )
+
+
 RULES = [
+    ("C17.R5", "P1", r5_to_function_object, "conversion to a function object yields the function object"),
     ("C17.R4", "P1", r4_class_body_merge, "class-body definitions merge first; inherited names are collected"),
     ("C17.R1", "P1", r1_copy_before_mutate, "copy before mutate"),
     ("C17.R2", "P1", r2_self_threading_agrees, "self threading agrees"),
